@@ -188,5 +188,37 @@ def run(ctx):
                           {'op': 'cli-policy', 'policy': pn, 'variant': variant})
         if variant == 'exact' and not passed:
             ctx.notes.append('policy peer built exactly from %s did not pass (see C05/C17)' % pn)
-    ctx.cover(len(cases) + len(pol_cases), n2, [{'kind': cases[-1][0], 'opts': cases[-1][2], 'rc': results[-1]['rc']}],
+    # multi-target runs (-T): the exit status is the worst finding over ALL printed reports, in every order of the targets
+    import itertools, os, tempfile
+    from props import c08
+    msrv = {n: P.new_ssh2_server(spec, stall_limit=3.0) for n, spec in c08.healthy_specs().items()}
+    tmpd = tempfile.mkdtemp(prefix='verif_c02_')
+    try:
+        orders = [list(o) for k in (2, 3) for o in itertools.permutations(sorted(msrv), k)]
+        if q:
+            orders = [o for i, o in enumerate(orders) if i % 2 == 0 or o[:2] == ['ok-warn', 'ok-fail']]
+        mcases = [(o, th) for o in orders for th in ((1,) if q else (1, 2, 8))]
+
+        def do_multi(z, c):
+            o, th = c
+            tf = os.path.join(tmpd, 't_%s_%d.txt' % ('_'.join(o), th))
+            with open(tf, 'w') as f:
+                f.write('\n'.join('127.0.0.1:%d' % msrv[n].port for n in o) + '\n')
+            return z.run(['-n', '--skip-rate-test', '-t', '2', '--threads', str(th), '-T', tf], timeout=120)
+        with runner.Pool(8) as pool:
+            mres = pool.map(do_multi, mcases)
+    finally:
+        for sv in msrv.values():
+            sv.shutdown()
+        import shutil
+        shutil.rmtree(tmpd, ignore_errors=True)
+    for (o, th), res in zip(mcases, mres):
+        blocks = res['out'].split('-' * 80 + '\n\n')
+        worst = [canon.worst(canon.parse_text(b)['algs']) for b in blocks]
+        want = max(worst) if worst else None
+        n2.add(('multi', tuple(o), res['rc']))
+        if len(blocks) != len(o) or res['rc'] != want:
+            ctx.violation('multi-status-vs-reports', 'run over targets %r (threads=%d) exits %r; its %d printed reports have worst findings %r' % (o, th, res['rc'], len(blocks), worst),
+                          {'op': 'cli-multi', 'targets': o, 'threads': th})
+    ctx.cover(len(cases) + len(pol_cases) + len(mcases), n2, [{'kind': cases[-1][0], 'opts': cases[-1][2], 'rc': results[-1]['rc']}],
               'real CLI over TCP against scripted peers: healthy peers x option sets, handshakes broken at each stage, built-in policy audits (exact and drifted peer); non-trivial = distinct (kind, options, status)')
